@@ -52,7 +52,16 @@ CAPSETS = {
 }
 
 
+OK_FORM = [0]
+
+
 def make_server(capset, faults, auth_ok=True):
+    srv = _make_server(capset, faults, auth_ok)
+    srv.handshake_ok_form = OK_FORM[0]
+    return srv
+
+
+def _make_server(capset, faults, auth_ok=True):
     c = CAPSETS[capset]
     pre = [(b"IMPLEMENTATION", b"x"), (b"SASL", c["pre"]), (b"SIEVE", b"fileinto")]
     post = [(b"IMPLEMENTATION", b"x"), (b"SASL", c["post"]), (b"SIEVE", b"fileinto")]
@@ -106,7 +115,7 @@ def run_history(capset, starttls, faults1, wrap_fails, pre, post, second, faults
         sock = s.cur_socket()
         before = len(sock.written)
         # "an AUTHENTICATE exchange on this connection ended with OK" (a later LOGOUT does not undo that)
-        authed = bool(srv.authenticated) and s.created > 0
+        authed = bool(srv.authenticated) and s.created > 0 and not s.env.get("refused_last")
         o = call_any(s, name)
         sock2 = s.cur_socket()
         wrote = sock.written[before:] if sock2 is sock else sock2.written
@@ -119,10 +128,15 @@ def run_history(capset, starttls, faults1, wrap_fails, pre, post, second, faults
         do(name, "after connect")
     o2 = None
     if second:
-        srv2 = make_server(capset, faults2, auth_ok)
+        special = faults2 if isinstance(faults2, str) else None
+        srv2 = make_server(capset, [] if special else faults2, auth_ok)
         servers.append(srv2)
         s.env["next_server"] = srv2
         s.env.pop("wrap_fails", None)
+        if special == "REFUSED":
+            s.env["refuse_connection"] = True
+        elif special == "WRAPFAIL":
+            s.env["wrap_fails"] = True
         o2 = s.call("connect", "user", "pass", starttls=starttls)
         for name in post2:
             do(name, "after second connect")
@@ -144,7 +158,8 @@ def fault_sets(tier, starttls):
 
 
 def task(t):
-    capset, tier = t
+    capset, tier, okform = t
+    OK_FORM[0] = okform
     names = public_callables()
     viols = []
     n = 0
@@ -156,24 +171,25 @@ def task(t):
             for wrap_fails in ((False, True) if starttls else (False,)):
                 for auth_ok in (True, False):
                     # every public method once before connect, once after, and after a second connect that may fail
-                    second_faults = [None, (), (("AUTHRESULT", 0, "NO"),), (("GREETING", 0, "BYE"),), (("AUTHRESULT", 0, "SILENCE"),)]
+                    second_faults = [None, (), (("AUTHRESULT", 0, "NO"),), (("GREETING", 0, "BYE"),), (("AUTHRESULT", 0, "SILENCE"),),
+                                     (("STARTTLS", 0, "NO"),), (("TLSCAPS", 0, "EOF"),), "REFUSED", "WRAPFAIL"]
                     for f2 in second_faults:
                         if f2 is not None and (faults1 or wrap_fails or not auth_ok):
                             continue  # second-connect histories start from a successful first session
                         bad, o1, o2, outs = run_history(capset, starttls, list(faults1), wrap_fails, names, names, f2 is not None,
-                                                        list(f2 or ()), names, auth_ok)
+                                                        f2 if isinstance(f2, str) else list(f2 or ()), names, auth_ok)
                         n += 1
                         distinct.add((starttls, faults1, wrap_fails, auth_ok, f2, o1.key(with_err=False), o2.key(with_err=False) if o2 else None))
                         for clause, text in bad[:3]:
                             viols.append({"property": "C10", "engine": "wire",
-                                          "signature": ["C10", capset + ("+starttls" if starttls else ""),
+                                          "signature": ["C10", capset + ("+starttls" if starttls else "") + ("/okform%d" % okform if okform else ""),
                                                         "first:%s wrap_fails=%s auth=%s second:%s" % ("+".join("%s@%s" % (a, st) for st, _k, a in faults1) or "ok", wrap_fails,
                                                                                                     "OK" if auth_ok else "NO",
-                                                                                                    "none" if f2 is None else ("+".join("%s@%s" % (a, st) for st, _k, a in f2) or "ok")),
+                                                                                                    "none" if f2 is None else (f2 if isinstance(f2, str) else ("+".join("%s@%s" % (a, st) for st, _k, a in f2) or "ok"))),
                                                         clause],
                                           "what": text,
-                                          "case": {"capset": capset, "starttls": starttls, "faults1": [list(f) for f in faults1], "wrap_fails": wrap_fails,
-                                                   "auth_ok": auth_ok, "second": f2 is not None, "faults2": [list(f) for f in (f2 or ())]},
+                                          "case": {"okform": okform, "capset": capset, "starttls": starttls, "faults1": [list(f) for f in faults1], "wrap_fails": wrap_fails,
+                                                   "auth_ok": auth_ok, "second": f2 is not None, "faults2": f2 if isinstance(f2, str) else [list(f) for f in (f2 or ())]},
                                           "witness": "capabilities=%s starttls=%s faults=%r wrap_fails=%s auth_ok=%s second_connect=%r" % (capset, starttls, faults1, wrap_fails, auth_ok, f2),
                                           "observed": "connect: %s / %s" % (o1.brief(), o2.brief() if o2 else None)})
                         if sample is None and starttls and not faults1 and f2 is None and not bad:
@@ -182,7 +198,7 @@ def task(t):
 
 
 def run(tier, seed):
-    res = pool.run_tasks("checks.c10:task", [(c, tier) for c in CAPSETS])
+    res = pool.run_tasks("checks.c10:task", [(c, tier, f) for c in CAPSETS for f in (0, 1, 2)])
     n = sum(r["n"] for r in res)
     viols = []
     for r in res:
@@ -201,9 +217,10 @@ def run(tier, seed):
 
 def replay(payload):
     c = payload["case"]
+    OK_FORM[0] = c.get("okform", 0)
     names = public_callables()
     bad, o1, o2, outs = run_history(c["capset"], c["starttls"], [tuple(f) for f in c["faults1"]], c["wrap_fails"], names, names, c["second"],
-                                    [tuple(f) for f in c["faults2"]], names, c["auth_ok"])
+                                    c["faults2"] if isinstance(c["faults2"], str) else [tuple(f) for f in c["faults2"]], names, c["auth_ok"])
     out = []
     for clause, text in bad:
         sig = list(payload["signature"])
